@@ -163,7 +163,9 @@ public:
   void assign(iterator first, iterator last) {
     size_t n = last - first;
     resize(n);
-    memcpy(reinterpret_cast<void*>(data_), first, n * sizeof(_Tp));
+    // an empty array has no storage: memcpy must not be given a null pointer
+    if (n)
+      memcpy(reinterpret_cast<void*>(data_), first, n * sizeof(_Tp));
   }
 
   reference front() { return data_[0]; }
